@@ -21,6 +21,10 @@ CHECKS = {
          'Static analysis of the scheduling loop: on every path through the intake loop, the placement loop, the wait-pool insertion/cancel check, the wait-pool triage and the consumption of the three lazy_bisect results each task gets exactly one outcome (hand-on xor retention); the "can never be scheduled" raise is control dependent on _active_cnt == 0 (and the counter discipline R03.3 holds); priorities are iterated descending; a release re-enables the wait pool pass; cancel of waiting tasks removes and reports together. Decides loss/duplication per path, not timing or starvation freedom.',
          'Trusted: ru.lazy_bisect partition contract; effect calls atomic. Not decided: starvation freedom, "as soon as" (timing).',
          'DESIGN.md section 5 / C04'),
+ 'C07': ('path enumeration with (publication, hand-on, outcome) counting per finishing region; lock-region test-and-remove dominance; must-pass ordering',
+         'Static analysis of the Popen and NOOP executors: on every path of cancel_task, of one watcher iteration plus the bulk finish, of the per-task error handlers, of the NOOP collector and of the late-cancel path, unschedule publications equal hand-ons in {0,1} with the outcome recorded first; both contenders (cancel, watcher) reach their finish effects only through a locked test-and-remove on the same registry with the same lock; registration precedes launch; execution start is announced once per bulk; the process handle precedes the watch queue and the late cancel check; the timeout watcher goes through cancel_task. Argues exactly-once by lock discipline and single removal, not by exploring thread schedules.',
+         'Trusted: effect calls atomic; is_canceled hands on CANCELED exactly when true. Not decided: real thread schedules; Flux/Dragon executors. Known finding K2 (late cancel double hand-on).',
+         'DESIGN.md section 5 / C07'),
 }
 PENDING = 'check not built yet in this round (static rules designed in DESIGN.md section 5); not claimed until the checker exists'
 NA = {}
